@@ -1466,8 +1466,34 @@ theorem step_X {w : World} (e : Ev) (hI : Inv02 w)
   | start =>
     simp only [step]
     split
+    · exact hI
+    · split
+      · exact hI.env (EnvSame.of_conns rfl rfl rfl rfl) rfl rfl rfl rfl
+      · exact hI.env (EnvSame.of_conns rfl rfl rfl rfl) rfl rfl rfl rfl
+  | waitElapsed =>
+    simp only [step]
+    split
     · exact hI.env (EnvSame.of_conns rfl rfl rfl rfl) rfl rfl rfl rfl
     · exact hI
+  | cancelCtx =>
+    simp only [step]
+    split
+    · exact hI
+    · split
+      · exact hI.env (EnvSame.of_conns rfl rfl rfl rfl) rfl rfl rfl rfl
+      · exact hI.env (EnvSame.of_conns rfl rfl rfl rfl) rfl rfl rfl rfl
+      · exact hI.env (EnvSame.of_conns rfl rfl rfl rfl) rfl rfl rfl rfl
+      · rename_i k _
+        have ha : Inv02 { w with ctxCancelled := true, connReady := true } :=
+          hI.env (EnvSame.of_conns rfl rfl rfl rfl) rfl rfl rfl rfl
+        have hb : Inv02 (kill { w with ctxCancelled := true, connReady := true } k) :=
+          ha.env (kill_envSame _ k) rfl rfl rfl rfl
+        have h0 : Inv02 { kill { w with ctxCancelled := true, connReady := true } k with
+            phase := .exited, connectErr := true } :=
+          hb.env (EnvSame.of_conns rfl rfl rfl rfl) rfl rfl rfl rfl
+        exact progress_X h0
+      · exact hI.env (EnvSame.of_conns rfl rfl rfl rfl) rfl rfl rfl rfl
+      · exact hI.env (EnvSame.of_conns rfl rfl rfl rfl) rfl rfl rfl rfl
   | app r =>
     simp only [step]
     split
@@ -1877,9 +1903,59 @@ theorem step_K {w : World} (e : Ev) (hI : Inv12 w) (h0 : w.initialized = false) 
   | start =>
     simp only [step]
     split
+    · exact ⟨fun _ => hK, fun _ => h0⟩
+    · split
+      · exact ⟨fun _ => ⟨hK.stuck, hK.gor, hK.gate, hK.q2, hK.stash, (fun k h => by cases h)⟩,
+          fun _ => h0⟩
+      · exact ⟨fun _ => ⟨hK.stuck, hK.gor, hK.gate, hK.q2, hK.stash, (fun k h => by cases h)⟩,
+          fun _ => h0⟩
+  | waitElapsed =>
+    simp only [step]
+    split
     · exact ⟨fun _ => ⟨hK.stuck, hK.gor, hK.gate, hK.q2, hK.stash, (fun k h => by cases h)⟩,
         fun _ => h0⟩
     · exact ⟨fun _ => hK, fun _ => h0⟩
+  | cancelCtx =>
+    simp only [step]
+    split
+    · exact ⟨fun _ => hK, fun _ => h0⟩
+    · split
+      · rename_i hph
+        exact ⟨fun _ => ⟨hK.stuck, hK.gor, hK.gate, hK.q2, hK.stash,
+          (fun k h => by rw [show w.phase = Phase.idle from hph] at h; cases h)⟩, fun _ => h0⟩
+      · exact ⟨fun _ => ⟨hK.stuck, hK.gor, hK.gate, hK.q2, hK.stash, (fun k h => by cases h)⟩,
+          fun _ => h0⟩
+      · exact ⟨fun _ => ⟨hK.stuck, hK.gor, hK.gate, hK.q2, hK.stash, (fun k h => by cases h)⟩,
+          fun _ => h0⟩
+      · rename_i k hk
+        have hph : w.phase = .connackGate k := hk
+        have hc := hK.phase k hph
+        have hlt : k < w.conns.length := by have := hI.cliLast k hc; omega
+        have ha : Inv12 { w with ctxCancelled := true, connReady := true } :=
+          hI.env (EnvSame.of_conns rfl rfl rfl rfl) rfl rfl
+        have hb : Inv12 (kill { w with ctxCancelled := true, connReady := true } k) :=
+          ha.env (kill_envSame _ k) rfl rfl
+        have hI1 : Inv12 { kill { w with ctxCancelled := true, connReady := true } k with
+            phase := .exited, connectErr := true } :=
+          hb.env (EnvSame.of_conns rfl rfl rfl rfl) rfl rfl
+        have hK1 : KInv { kill { w with ctxCancelled := true, connReady := true } k with
+            phase := .exited, connectErr := true } := by
+          refine ⟨hK.stuck, hK.gor, ?_, hK.q2, hK.stash, (fun k' h => by cases h)⟩
+          intro k' hk' hal
+          have hk'' : w.cli = some k' := hk'
+          rw [hc] at hk''; cases hk''
+          have hal' : (getConn (kill { w with ctxCancelled := true, connReady := true } k) k).alive
+              = true := hal
+          rw [getConn_kill_self { w with ctxCancelled := true, connReady := true } k hlt] at hal'
+          cases hal'
+        have hp := (progress_inv hI1).2
+        exact ⟨fun _ => progress_K hI1 h0 hK1, fun _ => hp.initialized.trans h0⟩
+      · rename_i hph
+        exact ⟨fun _ => ⟨hK.stuck, hK.gor, hK.gate, hK.q2, hK.stash,
+          (fun k h => by rw [show w.phase = Phase.exited from hph] at h; cases h)⟩, fun _ => h0⟩
+      · rename_i k hph
+        exact ⟨fun _ => ⟨hK.stuck, hK.gor, hK.gate, hK.q2, hK.stash,
+          (fun k' h => by rw [show w.phase = Phase.up k from hph] at h; cases h)⟩, fun _ => h0⟩
   | app r =>
     simp only [step]
     split
@@ -1912,7 +1988,8 @@ theorem step_K {w : World} (e : Ev) (hI : Inv12 w) (h0 : w.initialized = false) 
     · split
       · exact ⟨fun _ => ⟨hK.stuck, hK.gor, hK.gate, hK.q2, hK.stash, (fun k h => by cases h)⟩,
           fun _ => h0⟩
-      · exact ⟨fun _ => hK.congr rfl rfl rfl rfl rfl (fun _ h => h) rfl rfl, fun _ => h0⟩
+      · exact ⟨fun _ => ⟨hK.stuck, hK.gor, hK.gate, hK.q2, hK.stash, (fun k h => by cases h)⟩,
+          fun _ => h0⟩
   | connackOk sp inb =>
     refine ⟨?_, fun h => absurd rfl (h sp inb)⟩
     by_cases h : ∃ k, w.phase = .connackGate k
@@ -2010,7 +2087,31 @@ theorem step_init_mono {w : World} (e : Ev) (hI : Inv12 w)
     (hnew : ∀ m q, e = .app (.pub m q) → m ∉ accMsgs w) (h1 : w.initialized = true) :
     (step w e).initialized = true := by
   cases e with
-  | start => simp only [step]; split <;> exact h1
+  | start =>
+    simp only [step]
+    split
+    · exact h1
+    · split <;> exact h1
+  | waitElapsed => simp only [step]; split <;> exact h1
+  | cancelCtx =>
+    simp only [step]
+    split
+    · exact h1
+    · split
+      · exact h1
+      · exact h1
+      · exact h1
+      · rename_i k _
+        have ha : Inv12 { w with ctxCancelled := true, connReady := true } :=
+          hI.env (EnvSame.of_conns rfl rfl rfl rfl) rfl rfl
+        have hb : Inv12 (kill { w with ctxCancelled := true, connReady := true } k) :=
+          ha.env (kill_envSame _ k) rfl rfl
+        have hI1 : Inv12 { kill { w with ctxCancelled := true, connReady := true } k with
+            phase := .exited, connectErr := true } :=
+          hb.env (EnvSame.of_conns rfl rfl rfl rfl) rfl rfl
+        exact ((progress_inv hI1).2.initialized).trans h1
+      · exact h1
+      · exact h1
   | app r =>
     simp only [step]
     split
